@@ -163,6 +163,89 @@ Proof.
     rewrite (ext_nth _ _ _ X3) by lia. rewrite U2 by exact Ll. apply ext_nth; auto.
 Qed.
 
+(* ------------------------------------------------------------------ reindex (after fixes af303e7 / 28b2a9a) *)
+Lemma in_refs_enum_from kd : forall vs j l, In l (refs (mkObj kd (enum_from j vs))) -> In (VR l) vs.
+Proof.
+  induction vs as [|v r IH]; intros j l H; cbn [enum_from] in H; [destruct H|].
+  rewrite refs_cons, in_app_iff in H. destruct H as [H|H].
+  - destruct v as [z|x]; simpl in H; [tauto|]. destruct H as [<-|[]]. left; reflexivity.
+  - right. eapply IH; exact H.
+Qed.
+
+Lemma reindex_cells_spec N oc pos fill : forall idxs h h' vs,
+  reindex_cells h oc pos fill idxs = Some (h', vs) -> wf h -> (N <= length h)%nat -> closed_above N h ->
+  ext h h' /\ wf h' /\ closed_above N h' /\ Forall (val_ok N h') vs.
+Proof.
+  induction idxs as [|i rest IH]; intros h h' vs H W L C; cbn [reindex_cells] in H.
+  - inversion H; subst. repeat split; auto using ext_refl.
+  - match type of H with context [deepcopy h ?v] => destruct (deepcopy h v) as [[h1 v']|] eqn:D; [|discriminate] end.
+    destruct (reindex_cells h1 oc pos fill rest) as [[h2 vs2]|] eqn:E; [|discriminate]. inversion H; subst; clear H.
+    destruct (deepcopy_new N _ _ _ _ D L W C) as (X1 & W1 & C1 & V1).
+    pose proof (ext_length _ _ X1) as L1.
+    destruct (IH _ _ _ E W1 ltac:(lia) C1) as (X2 & W2 & C2 & F2).
+    split; [eapply ext_trans; eauto|]. split; [exact W2|]. split; [exact C2|].
+    constructor; [eapply val_ok_ext; eauto | exact F2].
+Qed.
+
+Lemma reindex_vars_spec N r r' n' pos fills : forall names h h',
+  reindex_vars h r r' names n' pos fills = Some h' -> wf h -> closed_above N h -> (N <= r' < length h)%nat ->
+  wf h' /\ closed_above N h' /\ (length h <= length h')%nat /\ (forall l, (l < N)%nat -> nth_error h' l = nth_error h l).
+Proof.
+  induction names as [|x rest IH]; intros h h' H W C R; cbn [reindex_vars] in H.
+  - inversion H; subst. repeat split; auto.
+  - destruct (resolve h r [V x]) as [la|]; [|discriminate].
+    destruct (nth_error h la) as [oa|]; [|discriminate].
+    match type of H with context [reindex_cells h ?a ?b ?c ?d] => destruct (reindex_cells h a b c d) as [[h0 cells]|] eqn:E; [|discriminate] end.
+    destruct (reindex_cells_spec N _ _ _ _ _ _ _ E W ltac:(lia) C) as (X0 & W0 & C0 & F0).
+    pose proof (ext_length _ _ X0) as L0.
+    set (h1 := h0 ++ [mkObj (okind oa) (enum cells)]) in *.
+    assert (Rc : forall l, In l (refs (mkObj (okind oa) (enum cells))) -> (N <= l < length h0)%nat).
+    { intros l Hl. apply in_refs_enum_from in Hl. rewrite Forall_forall in F0. exact (F0 _ Hl). }
+    assert (W1 : wf h1) by (apply wf_snoc; auto; intros l Hl; specialize (Rc l Hl); lia).
+    assert (C1 : closed_above N h1) by (apply closed_above_snoc; auto; intros l Hl; specialize (Rc l Hl); lia).
+    assert (L1 : length h1 = S (length h0)) by (unfold h1; rewrite app_length; simpl; lia).
+    destruct (nth_error h1 r') as [o'|] eqn:Ho'; [|discriminate].
+    set (h2 := set_obj h1 r' (mkObj (okind o') (cell_set (V x) (VR (length h0)) (ocells o')))) in *.
+    assert (Rn : forall l, In l (refs (mkObj (okind o') (cell_set (V x) (VR (length h0)) (ocells o')))) -> (N <= l < length h1)%nat).
+    { intros l Hl. apply in_refs_cell_set in Hl. destruct Hl as [Hl|Hl].
+      - split; [eapply C1; [| exact Ho' | destruct o'; exact Hl]; lia | eapply W1; [exact Ho' | destruct o'; exact Hl]].
+      - simpl in Hl. destruct Hl as [<-|[]]. lia. }
+    assert (W2 : wf h2) by (unfold h2, set_obj; apply wf_upd; auto; intros l Hl; apply Rn; exact Hl).
+    assert (C2 : closed_above N h2) by (unfold h2, set_obj; apply closed_above_upd; auto; intros l Hl; apply Rn; exact Hl).
+    assert (L2 : length h2 = length h1) by (unfold h2, set_obj; apply upd_length).
+    destruct (IH h2 h' H W2 C2 ltac:(lia)) as (W3 & C3 & L3 & U3).
+    repeat split; auto; try lia.
+    intros l Ll. rewrite U3 by exact Ll. unfold h2, set_obj. rewrite nth_error_upd_neq by lia.
+    unfold h1. rewrite nth_error_app_old by lia. apply ext_nth; auto. lia.
+Qed.
+
+(* reindex() returns an object that lives entirely in new objects — like copy(): whatever span object the caller hands in *)
+Theorem reindex_M_spec K h r span n' pos fills h' r' :
+  reindex_M K h r span n' pos fills = Some (h', r') -> wf h ->
+  wf h' /\ closed_above (length h) h' /\ (length h <= r' < length h')%nat /\
+  (forall l, (l < length h)%nat -> nth_error h' l = nth_error h l).
+Proof.
+  unfold reindex_M. intros H W.
+  destruct (copy_M K h r) as [[h1 r1]|] eqn:Cp; [|discriminate].
+  destruct (eval_src h1 r1 span) as [[ha v]|] eqn:Ev; [|discriminate].
+  destruct (deepcopy ha v) as [[hb v']|] eqn:D; [|discriminate].
+  destruct (run_action hb r1 (ASet [] (A N_span) (val_src v'))) as [h2|] eqn:Ra; [|discriminate].
+  match type of H with context [reindex_vars h2 r r1 ?a ?b ?c ?d] => destruct (reindex_vars h2 r r1 a b c d) as [h3|] eqn:Rv; [|discriminate] end.
+  inversion H; subst h3 r1; clear H. set (N := length h).
+  destruct (copy_M_spec _ _ _ _ _ Cp W) as (W1 & C1 & B1 & U1). fold N in C1, B1, U1.
+  destruct (eval_src_spec N _ _ _ _ _ Ev W1 ltac:(lia) C1) as (Xa & Wa & Ca & _ & _).
+  pose proof (ext_length _ _ Xa) as La.
+  destruct (deepcopy_new N _ _ _ _ D ltac:(lia) Wa Ca) as (Xb & Wb & Cb & Vb).
+  pose proof (ext_length _ _ Xb) as Lb.
+  assert (AB : act_above N hb (ASet [] (A N_span) (val_src v'))).
+  { unfold act_above. cbn [act_src]. destruct v' as [z|l]; simpl; auto. }
+  destruct (action_above N _ _ _ _ Ra Wb Cb ltac:(lia) AB) as (W2 & C2 & L2 & U2).
+  destruct (reindex_vars_spec N _ _ _ _ _ _ _ _ Rv W2 C2 ltac:(lia)) as (W3 & C3 & L3 & U3).
+  repeat split; auto; try lia.
+  intros l Ll. fold N in Ll. rewrite U3 by exact Ll. rewrite U2 by exact Ll.
+  rewrite (ext_nth _ _ _ Xb) by lia. rewrite (ext_nth _ _ _ Xa) by lia. apply U1; exact Ll.
+Qed.
+
 (* ------------------------------------------------------------------ BaseLinker.copy *)
 Lemma copy_submodels_spec K N : forall cs h h' cs',
   copy_submodels K h cs = Some (h', cs') -> wf h -> (N <= length h)%nat -> closed_above N h ->
@@ -281,4 +364,14 @@ Proof.
   { split; [|rewrite NoL; exact I]. destruct (ia_span a); simpl in *; auto; discriminate. }
   destruct (init_M_spec (length h) _ _ _ _ _ _ _ H W (le_n _) (closed_above_len h) IA) as (W' & C & -> & L & U).
   split; auto. apply new_root_separate; auto.
+Qed.
+
+(* reindex_disjoint: the reindexed object reaches new objects only; the original and every other pre-existing object are
+   literally untouched (positive form of finding #21, repaired by fixes af303e7 / 28b2a9a) *)
+Theorem reindex_disjoint K h r span n' pos fills h' r' b :
+  reindex_M K h r span n' pos fills = Some (h', r') -> wf h -> (b < length h)%nat ->
+  wf h' /\ same_subheap h h' b /\ sep h' r' b /\ (forall l, reach h' r' l -> (length h <= l)%nat).
+Proof.
+  intros H W B. destruct (reindex_M_spec _ _ _ _ _ _ _ _ _ H W) as (W' & C & R & U).
+  split; auto. apply new_root_separate; auto. lia.
 Qed.
